@@ -160,7 +160,9 @@ impl<'tcx> Cx<'tcx> {
                 ProjectionElem::Field(idx, fty) => {
                     let bty = base.ty(&body.local_decls, tcx);
                     let mut name = None;
+                    let mut of = None;
                     if let ty::Adt(adt, _) = bty.ty.kind() {
+                        of = Some(self.path(adt.did()));
                         let vidx = bty.variant_index.unwrap_or(rustc_abi::FIRST_VARIANT);
                         if vidx.as_usize() < adt.variants().len() {
                             let v = adt.variant(vidx);
@@ -172,6 +174,7 @@ impl<'tcx> Cx<'tcx> {
                     obj(vec![
                         ("f", format!("{}", idx.as_usize())),
                         ("n", opt_s(name)),
+                        ("a", opt_s(of)),
                         ("t", esc(&self.ty_s(fty))),
                     ])
                 }
